@@ -8,9 +8,11 @@
 (*                                                                         *)
 (* A shape is a TABLE of nodes (no recursive records); node 1 is the root, *)
 (* the children of node n have indices > n:                                *)
-(*   [t |-> "leaf",  kind, res, kids |-> <<>>]                             *)
+(*   [t |-> "leaf",  kind, res, comp, kids |-> <<>>]                       *)
 (*        kind \in Read | Write | ReadExpect | WriteExpect | OptRead |      *)
 (*                 OptWrite (res \in Res)  |  Unit | Phantom (res = 0)      *)
+(*               | ReadH | WriteH : Read / Write with a CUSTOM SetupHandler *)
+(*                 (res \in Res, comp \in Res its companion resource)       *)
 (*   [t |-> "tuple" | "named" | "tstruct", kind |-> "", res |-> 0, kids]   *)
 (*        a Rust tuple (arity 1..26) / #[derive(SystemData)] struct with   *)
 (*        named fields / #[derive(SystemData)] tuple struct                *)
@@ -22,8 +24,13 @@
 (* guards), and sets its members up left to right.  Read/Write borrow one  *)
 (* cell shared/exclusively and panic when the resource is missing;         *)
 (* Option<..> yields None (no borrow) when it is missing; every form       *)
-(* panics when the cell is taken incompatibly.  Only Read/Write with the   *)
-(* DefaultProvider create a resource at setup, and only into a vacant slot.*)
+(* panics when the cell is taken incompatibly.  The setup of a leaf is a   *)
+(* CALL OF ITS SETUP HANDLER: DefaultProvider creates the resource into a  *)
+(* vacant slot, PanicHandler does nothing, Option<..> has no handler call; *)
+(* the custom handler of the zoo (ReadH / WriteH) is called observably     *)
+(* whatever exists, creates its resource if vacant and ALSO its companion  *)
+(* resource if vacant (an effect beyond the declared resource).  The setup *)
+(* of a composite is the concatenation of its members' handler calls.      *)
 (*                                                                         *)
 (* Deliberate deviations: values of resources are abstracted to a number;  *)
 (* the value handed out by a successful fetch is not modelled beyond the   *)
@@ -31,8 +38,9 @@
 (***************************************************************************)
 EXTENDS Naturals, Sequences, FiniteSets
 
-ReadKinds  == {"Read", "ReadExpect", "OptRead"}
-WriteKinds == {"Write", "WriteExpect", "OptWrite"}
+ReadKinds  == {"Read", "ReadExpect", "OptRead", "ReadH"}
+WriteKinds == {"Write", "WriteExpect", "OptWrite", "WriteH"}
+HKinds     == {"ReadH", "WriteH"}          \* custom SetupHandler with a companion resource
 OptKinds   == {"OptRead", "OptWrite"}
 DefKinds   == {"Read", "Write"}            \* DefaultProvider: the only creating forms
 ResKinds   == ReadKinds \cup WriteKinds
@@ -43,8 +51,9 @@ MaxArity   == 26
 ToSet(s) == {s[i] : i \in DOMAIN s}
 
 \* ---- construction of shape tables ---------------------------------------------
-Node(t, kind, res, kids) == [t |-> t, kind |-> kind, res |-> res, kids |-> kids]
+Node(t, kind, res, kids) == [t |-> t, kind |-> kind, res |-> res, comp |-> 0, kids |-> kids]
 Leaf(kind, res) == << Node("leaf", kind, IF kind \in NoKinds THEN 0 ELSE res, <<>>) >>
+LeafH(kind, res, comp) == << [Node("leaf", kind, res, <<>>) EXCEPT !.comp = comp] >>
 
 RECURSIVE Flat(_)
 Flat(ss) == IF ss = <<>> THEN <<>> ELSE Head(ss) \o Flat(Tail(ss))
@@ -68,9 +77,10 @@ WF(tb, nres) ==
        LET x == tb[n] IN
        IF x.t = "leaf" THEN
           /\ x.kids = <<>>
-          /\ \/ x.kind \in ResKinds /\ x.res \in 1..nres
-             \/ x.kind \in NoKinds /\ x.res = 0
-       ELSE /\ x.t \in Styles
+          /\ \/ x.kind \in ResKinds \ HKinds /\ x.res \in 1..nres /\ x.comp = 0
+             \/ x.kind \in HKinds /\ x.res \in 1..nres /\ x.comp \in 1..nres
+             \/ x.kind \in NoKinds /\ x.res = 0 /\ x.comp = 0
+       ELSE /\ x.t \in Styles /\ x.comp = 0
             /\ Len(x.kids) \in 1..MaxArity
             /\ \A j \in DOMAIN x.kids : x.kids[j] \in (n + 1)..Len(tb)
 
@@ -98,11 +108,15 @@ FetchSteps(tb, n) ==
       ELSE <<>>)
   ELSE Flat([j \in DOMAIN x.kids |-> FetchSteps(tb, x.kids[j])])
 
-\* resources a setup tries to create, in member order
+\* observable setup-handler calls of a setup, in member order (PanicHandler's call has no
+\* effect and Option forms call no handler: no step)
 RECURSIVE SetupSteps(_, _)
 SetupSteps(tb, n) ==
   LET x == tb[n] IN
-  IF x.t = "leaf" THEN (IF x.kind \in DefKinds THEN <<x.res>> ELSE <<>>)
+  IF x.t = "leaf" THEN
+     (IF x.kind \in DefKinds THEN << [h |-> "default", res |-> x.res, comp |-> 0] >>
+      ELSE IF x.kind \in HKinds THEN << [h |-> "custom", res |-> x.res, comp |-> x.comp] >>
+      ELSE <<>>)
   ELSE Flat([j \in DOMAIN x.kids |-> SetupSteps(tb, x.kids[j])])
 
 \* leaves in member order (used for the lemma "composition = map over leaves")
@@ -146,15 +160,23 @@ Fetch(tb, present, b0) == RunFetch(FetchSteps(tb, 1), 1, present, b0, b0)
 \* a world is a function resource -> value, 0 = absent; dflt[r] > 0 is Default::default()
 Absent == 0
 Present(world) == {x \in DOMAIN world : world[x] # Absent}
-RECURSIVE RunSetup(_, _, _, _, _)
-RunSetup(steps, i, world, created, dflt) ==
-  IF i > Len(steps) THEN [world |-> world, created |-> created]
-  ELSE LET x == steps[i] IN
-       IF world[x] = Absent
-       THEN RunSetup(steps, i + 1, [world EXCEPT ![x] = dflt[x]], Append(created, x), dflt)
-       ELSE RunSetup(steps, i + 1, world, created, dflt)
+\* result: the world, the resources created (in order), the custom-handler calls (in order)
+RECURSIVE RunSetup(_, _, _, _, _, _)
+RunSetup(steps, i, world, created, calls, dflt) ==
+  IF i > Len(steps) THEN [world |-> world, created |-> created, calls |-> calls]
+  ELSE LET st == steps[i]
+           x == st.res
+           w1 == IF world[x] = Absent THEN [world EXCEPT ![x] = dflt[x]] ELSE world
+           c1 == IF world[x] = Absent THEN Append(created, x) ELSE created
+       IN
+       IF st.h = "default" THEN RunSetup(steps, i + 1, w1, c1, calls, dflt)
+       ELSE \* custom handler: always called; own resource, then the companion, each if vacant
+            LET y == st.comp
+                w2 == IF w1[y] = Absent THEN [w1 EXCEPT ![y] = dflt[y]] ELSE w1
+                c2 == IF w1[y] = Absent THEN Append(c1, y) ELSE c1
+            IN RunSetup(steps, i + 1, w2, c2, Append(calls, x), dflt)
 
-Setup(tb, world, dflt) == RunSetup(SetupSteps(tb, 1), 1, world, <<>>, dflt)
+Setup(tb, world, dflt) == RunSetup(SetupSteps(tb, 1), 1, world, <<>>, <<>>, dflt)
 
 \* =======================================================================================
 \* PROPERTY DEFINITIONS.  Every operator takes the observation as ARGUMENTS so that the
@@ -200,18 +222,21 @@ P_C06_outcome(tb, present, b0, out) ==
     [] OTHER           -> FALSE
 
 \* C06, setup half: setup of a composite = composition of its members' setups, in order
-\* (observed: the sequence of resources for which Default::default() was invoked)
-P_C06_setup(tb, w0, dflt, created, w1) ==
-  LET s == Setup(tb, w0, dflt) IN created = s.created /\ w1 = s.world
+\* (observed: the sequence of resources for which Default::default() was invoked
+\* and of custom-handler calls - every member's handler is called whatever already exists)
+P_C06_setup(tb, w0, dflt, created, calls, w1) ==
+  LET s == Setup(tb, w0, dflt) IN created = s.created /\ calls = s.calls /\ w1 = s.world
 
 \* C13, world half: setup modifies nothing that exists, creates exactly the vacant
-\* default-provided resources (with the default value); Option / Expect forms create nothing
+\* handler-provided resources (with the default value); Option / Expect forms create nothing
 DefaultProvided(tb) == {x.res : x \in {y \in ToSet(Leaves(tb, 1)) : y.kind \in DefKinds}}
+Provided(tb) == DefaultProvided(tb)
+                \cup UNION {{x.res, x.comp} : x \in {y \in ToSet(Leaves(tb, 1)) : y.kind \in HKinds}}
 P_C13_world(tb, w0, dflt, w1) ==
   /\ DOMAIN w1 = DOMAIN w0
   /\ \A x \in DOMAIN w0 :
        IF w0[x] # Absent THEN w1[x] = w0[x]
-       ELSE IF x \in DefaultProvided(tb) THEN w1[x] = dflt[x]
+       ELSE IF x \in Provided(tb) THEN w1[x] = dflt[x]
        ELSE w1[x] = Absent
 
 \* =======================================================================================
@@ -233,7 +258,7 @@ Res  == DOMAIN world0                \* abstract resources 1..n
 Dflt == [x \in Res |-> 1000 + x]     \* values produced by Default::default()
 Pre  == [x \in Res |-> x]            \* distinctive values of pre-existing resources
 
-NoRes == [out |-> "", res |-> 0, at |-> 0, created |-> <<>>]
+NoRes == [out |-> "", res |-> 0, at |-> 0, created |-> <<>>, calls |-> <<>>]
 
 DoFetch ==
   /\ phase = "init"
@@ -253,7 +278,7 @@ DoSetup ==
   /\ phase = "init" /\ borrow = NoBorrows(Res)      \* setup takes &mut World
   /\ LET s == Setup(sh, world, Dflt) IN
      /\ world' = s.world
-     /\ outc' = [NoRes EXCEPT !.out = "ok", !.created = s.created]
+     /\ outc' = [NoRes EXCEPT !.out = "ok", !.created = s.created, !.calls = s.calls]
   /\ phase' = "setup"
   /\ UNCHANGED <<sh, world0, held0, borrow>>
 
@@ -285,15 +310,17 @@ P_C06_lemmas ==
   /\ rd = [i \in DOMAIN rs |-> rs[i].res]
   /\ wr = [i \in DOMAIN ws |-> ws[i].res]
   /\ Len(FetchSteps(sh, 1)) = Len(rd) + Len(wr)
-  /\ ToSet(SetupSteps(sh, 1)) \subseteq ToSet(rd) \cup ToSet(wr)
+  /\ {st.res : st \in ToSet(SetupSteps(sh, 1))} \subseteq ToSet(rd) \cup ToSet(wr)
   /\ WF(sh, Cardinality(Res))
 
 P_C13_world_inv ==
   phase = "setup" =>
      /\ P_C13_world(sh, world0, Dflt, world)
-     /\ P_C06_setup(sh, world0, Dflt, outc.created, world)
+     /\ P_C06_setup(sh, world0, Dflt, outc.created, outc.calls, world)
+     \* every custom handler is called exactly once per occurrence, whatever exists
+     /\ Len(outc.calls) = Cardinality({i \in DOMAIN Leaves(sh, 1) : Leaves(sh, 1)[i].kind \in HKinds})
      \* afterwards every default-providing member can be fetched; created without duplicates
-     /\ DefaultProvided(sh) \subseteq Present(world)
+     /\ Provided(sh) \subseteq Present(world)
      /\ \A i, j \in DOMAIN outc.created : i # j => outc.created[i] # outc.created[j]
      \* idempotent
      /\ Setup(sh, world, Dflt).world = world /\ Setup(sh, world, Dflt).created = <<>>
